@@ -900,6 +900,7 @@ func (c *vfcCluster) startNode() *vfcNode {
 		sys  *actorSystem
 		port int
 	)
+	began := time.Now()
 	for attempt := 0; ; attempt++ {
 		// reserve a kernel-assigned port with SO_REUSEPORT (the option the repository's
 		// own listeners use) so nobody can take it before the system binds it
@@ -950,6 +951,7 @@ func (c *vfcCluster) startNode() *vfcNode {
 		break
 	}
 
+	phase1 := time.Since(began)
 	ctx := context.Background()
 	// phase 2: the production cluster steps, in production order, on the fake registry
 	sys.clusterEnabled.Store(true)
@@ -987,6 +989,7 @@ func (c *vfcCluster) startNode() *vfcNode {
 	if !sys.InCluster() {
 		t.Fatalf("vfc: node %d is not in cluster mode after wiring", idx)
 	}
+	t.Logf("vfc: node %d up on %s:%d (plain start %s, cluster wiring %s)", idx, host, port, phase1.Round(time.Millisecond), (time.Since(began) - phase1).Round(time.Millisecond))
 
 	n := &vfcNode{Idx: idx, Sys: sys, Fake: h, Host: node.Host, Port: node.RemotingPort, PeersPort: node.PeersPort}
 	c.mu.Lock()
